@@ -106,6 +106,7 @@ fn ledgers_part(ctx: &mut Ctx) {
     let mut r = crate::rng::Rng::new(ctx.seed ^ 0xC07);
     let ex_wide = run_impl::wide_exemptions();
     let ex_emb = run_impl::embedded_exemptions();
+    let mut cli_left: u32 = if ctx.tier == Tier::Quick { 16 } else { 160 };
     for (name, l0) in cases {
         let mut l = shift(&l0, &mut r);
         // one ledger in three also has a security sold in tax years that do not follow one another
@@ -159,6 +160,7 @@ fn ledgers_part(ctx: &mut Ctx) {
         years.push(*r.pick(&[1899, 1900, 2100, 2101, 0, -1, 65535, 65536, 70000, 300000, -300000]));
         for y in years {
             ctx.ev.count("year-filter-runs");
+            if cli_left > 0 && well_formed(&l) && (1900..=2100).contains(&y) { cli_left -= 1; cli_crosscheck(ctx, prop, &l, Some(y)); }
             let one_raw = run_impl::impl_calc_raw(&l, Some(y), ex);
             let one = match &one_raw { Err(p) => Err(rep::RErr { kind: "panic".into(), detail: p.clone() }), Ok(Err(e)) => Err(rep::classify_err(e)), Ok(Ok(x)) => Ok(rep::from_report(x)) };
             if let Err(e) = &one { ctx.ev.count(&format!("filtered:rejected:{}", e.kind)); if e.kind == "panic" { ctx.ev.violation("crash", format!("year filter {y}: {}", e.detail), replay_text(prop, "crash", &e.detail, &l, &[format!("year filter {y}")])); } }
